@@ -501,6 +501,34 @@ func TestC09(t *testing.T) {
 			}
 		}
 	}
+	// "or the exact result, if its complete response had already been delivered": the stream is one envelope behind (its loop
+	// holds an unconsumed message), the next envelope - a message, the OK trailer, an error status, a reset - is queued, THEN
+	// the read fails (the queue is closed with the envelope in it), THEN the stream drains: it must still get the queued
+	// envelope's content. Repeated: the implementation's select between the queue and the closed signal is a coin flip.
+	for rep := 0; rep < 12; rep++ {
+		for fi, fin := range []*EnvSpec{
+			{Call: 0, Hdr: "ok:0", Body: i64(402), Trl: "none"},
+			{Call: 0, Hdr: "ok:0", Status: &[2]int64{0, 0}, Trl: "ok:5"},
+			{Call: 0, Hdr: "ok:0", Status: &[2]int64{9, 7}, Trl: "ok:0"},
+			{Call: 0, Hdr: "ok:0", Trl: "ok:0", Rst: true},
+		} {
+			acts := []CAct{{Op: "stream"}}
+			if rep%3 == 1 {
+				acts = append(acts, CAct{Op: "unary", B: 15})
+			}
+			acts = append(acts, CAct{Op: "deliver", Env: &EnvSpec{Call: 0, Hdr: "ok:0", Body: i64(401), Trl: "none"}},
+				CAct{Op: "deliver", Env: fin})
+			if rep%4 == 2 {
+				acts = append(acts, CAct{Op: "tick", B: 60})
+			}
+			acts = append(acts, CAct{Op: "failread"}, CAct{Op: "recv", C: 0}, CAct{Op: "recv", C: 0}, CAct{Op: "recv", C: 0}, CAct{Op: "trailer", C: 0})
+			sc := clientScenario{Acts: acts, WithStats: rep%2 == 0, Tags: []string{"base:queued-then-fail", fmt.Sprintf("queued=%d", fi)}}
+			if want(idx) && idx%nsh == shard {
+				runClientScenarioAs(t, idx, "c09", sc, em, "C09Step", nil)
+			}
+			idx++
+		}
+	}
 	// parked RecvMsg (the other yield point) x failure
 	r := newRand(900)
 	for i := 0; i < 40; i++ {
@@ -685,6 +713,46 @@ func TestC13(t *testing.T) {
 			runClientScenarioAs(t, idx, "c13", sc, em, "C13Step", nil)
 		}
 		idx++
+	}
+	// the stream's context ends while its loop HOLDS a message the caller has not consumed (the caller is one message
+	// behind), possibly with the final status queued behind it; then RecvMsg x3 / SendMsg: never success without data
+	for _, end := range []string{"cancel", "expire"} {
+		for q := 0; q < 3; q++ { // nothing / a message / an error status queued behind the held message
+			for tail := 0; tail < 3; tail++ {
+				for rep := 0; rep < 2; rep++ {
+					if idx%nsh != shard {
+						idx++
+						continue
+					}
+					acts := []CAct{{Op: "stream"}}
+					if rep == 1 {
+						acts = append(acts, CAct{Op: "unary", B: 21})
+					}
+					acts = append(acts, CAct{Op: "deliver", Env: &EnvSpec{Call: 0, Hdr: "ok:0", Body: i64(351), Trl: "none"}})
+					switch q {
+					case 1:
+						acts = append(acts, CAct{Op: "deliver", Env: &EnvSpec{Call: 0, Hdr: "ok:0", Body: i64(352), Trl: "none"}})
+					case 2:
+						acts = append(acts, CAct{Op: "deliver", Env: &EnvSpec{Call: 0, Hdr: "ok:0", Status: &[2]int64{9, 7}, Trl: "ok:0"}})
+					}
+					acts = append(acts, CAct{Op: end, C: 0})
+					switch tail {
+					case 0:
+						acts = append(acts, CAct{Op: "recv", C: 0}, CAct{Op: "recv", C: 0}, CAct{Op: "recv", C: 0})
+					case 1:
+						acts = append(acts, CAct{Op: "send", C: 0, B: 660}, CAct{Op: "recv", C: 0}, CAct{Op: "recv", C: 0})
+					case 2:
+						acts = append(acts, CAct{Op: "tick", B: 1000}, CAct{Op: "recv", C: 0}, CAct{Op: "header", C: 0}, CAct{Op: "recv", C: 0}, CAct{Op: "trailer", C: 0})
+					}
+					acts = append(acts, CAct{Op: "failread"}, CAct{Op: "recv", C: 0})
+					sc := clientScenario{Acts: acts, WithStats: idx%2 == 0, Tags: []string{"context-ends-while-message-held", end}}
+					if want(idx) {
+						runClientScenarioAs(t, idx, "c13", sc, em, "C13Step", nil)
+					}
+					idx++
+				}
+			}
+		}
 	}
 	nr := 500
 	if thorough() {
